@@ -969,8 +969,12 @@ pub fn property() -> Property {
                pause/unpause/set identity(a)/set compliance answers/set recovery target/advance; amounts relative to balance, free balance, frozen amount and allowance; \
                explicit authorization entries, 1/10 of holder calls and 1/13 of operator calls mis-authorized); \
                non-trivial = a correctly authorized movement refused through each of >=3 different closed gates AND >=1 authorized transfer_from AND >=1 successful \
-               forced_transfer/burn/recovery on an account with a partial freeze; distinct = distinct serialised case",
-        subs: vec![gen_sub::<Case>("gates", 2000, 30000, strategy, run)],
+               forced_transfer/burn/recovery on an account with a partial freeze; distinct = distinct serialised case. real-idv sub: token wired to the library's real identity verifier (registry with up to 3 required topics, 2 scriptable issuers, 3 identities holding generated claim sets), history of mint/transfer/transfer_from interleaved with claim, validity, topic and issuer edits; non-trivial = >=2 required topics, a movement blocked by the sender's and one by the receiver's verification, and a successful movement",
+        subs: {
+            let mut v = vec![gen_sub::<Case>("gates", 2000, 30000, strategy, run)];
+            v.extend(super::c04b::subs());
+            v
+        },
         // <= 1/10 of the minimum measured over seeds 0..5 (quick); thorough runs 15x the cases with longer histories
         floors: vec![
             ("nontrivial", 23, 230),
